@@ -59,6 +59,23 @@ def check(ctx: Ctx) -> None:
     M = ctx.model
     ctx.assume('real arithmetic; self.<method>(...) calls are virtual and uninterpreted; np/math spellings of the same '
                'operator are identified; the QAM grid is built by the literal complex(-(L-1)+2jj, (L-1)-2ii) loop')
+    # ------------------------------------------------------------------ C16.c
+    ctx.rule('C16.c', 'the theoretical-curve functions are pure formula evaluations: no store to the modulator (no memo keyed on the '
+                      'argument, no history dependence)', floor=8)
+    from ..model import is_self_attr
+    base = M.cls('Modulator')
+    for c in [base] + M.subclasses(base):
+        for f in c.methods.values():
+            if 'Theoretical' not in f.name:
+                continue
+            ctx.instance('C16.c', f.qualname)
+            stores = [(n.attr, n.lineno) for n in ast.walk(f.node) if isinstance(n, ast.Attribute) and isinstance(n.ctx, (ast.Store, ast.Del))
+                      and is_self_attr(n, f.self_name or 'self')]
+            ctx.obligation('C16.c', f.qualname, not stores, {'stores': stores} if stores else None, nontrivial=bool(stores))
+            for a, line in stores:
+                ctx.violation('C16.c', f.qualname, 'stores self.%s: the theoretical curve becomes a function of the call history (e.g. a memo '
+                              'keyed on the identity of the SNR array returns stale values after the array is refilled in place)' % a,
+                              f.path, line, operand=a)
     ctx.rule('C16.a', 'PER/SE/BER/SER compositions equal the specification terms', floor=12)
     SNR, L = T.Term.sym('SNR'), T.Term.sym('packet_length')
     B = _self_atom('calcTheoreticalBER', SNR)
@@ -126,8 +143,6 @@ def check(ctx: Ctx) -> None:
                 ctx.violation('C16.a', c.name, '%s inherits the NotImplemented stub of %s' % (c.name, meth),
                               c.module.path, c.node.lineno, operand=meth)
     _check_scale(ctx, ser_terms)
-
-
 def _db_once(t: T.Term) -> Tuple[bool, str]:
     n_conv = 0
     bare = 0
@@ -293,6 +308,11 @@ MUTANTS = [
            [('replace', 'realPart = np.cos(phases)', 'realPart = 2 * np.cos(phases)'),
             ('replace', 'imagPart = np.sin(phases)', 'imagPart = 2 * np.sin(phases)')], r'C16\.b:PSK'),
     Mutant('qfunc-wrong-scale', MISC, 'qfunc', [('replace', 'x / math.sqrt(2)', 'x / 2')], r'C16\.a:qfunc'),
+    Mutant('per-piecewise-approximation', FUND, 'Modulator.calcTheoreticalPER',
+           [('regex', r'(    PER = 1 - \(1 - BER\) \*\* packet_length\n)', r'\1    PER = np.where(BER < 1e-08, packet_length * BER, PER)\n')],
+           r'C16\.a:Modulator\.calcTheoreticalPER'),
+    Mutant('identity-keyed-memo', FUND, 'QAM._calcTheoreticalSingleCarrierErrorRate',
+           [('regex', r'(    return Psc)', r'    self._last_Psc = Psc\n\1')], r'C16\.c:QAM\._calcTheoreticalSingleCarrierErrorRate'),
     Mutant('benign-np.power', FUND, 'Modulator.calcTheoreticalPER',
            [('replace', '(1 - BER) ** packet_length', 'np.power(1 - BER, packet_length)')], None, benign=True),
     Mutant('benign-temp-for-one-minus-ber', FUND, 'Modulator.calcTheoreticalPER',
